@@ -265,7 +265,7 @@ def _work1(job: t.Tuple[t.Any, ...]) -> evid.Local:
         # every reachable state of the single-session search (vf/checks/sess.py) x every delivery of its alphabet:
         # receive must return or raise ProtocolError from EVERY state, not only from the three representatives
         role, kk = job[1], job[2]
-        res = SS.explore(role, kk, _X["known_all"], 0, parallel=False)
+        res = SS.explore(role, kk, _X["known_all"], 0, parallel=False, prop="C05")
         loc.add("states", res.states)
         loc.add("transitions", res.transitions)
         for (p, k), e in res.viol.items():
